@@ -753,6 +753,19 @@ public:
       if (V->getInit()->EvaluateAsInt(R, X.Ctx, Expr::SE_NoSideEffects) && R.Val.isInt())
         g.num("cv", R.Val.getInt().getExtValue());
     }
+    // a constant table of strings (`const char* const names[] = {"A", "B"}`): the literals, in order
+    if (V->hasInit()) {
+      if (const auto *IL = dyn_cast<InitListExpr>(V->getInit()->IgnoreParenImpCasts())) {
+        std::vector<std::string> lits;
+        bool all = IL->getNumInits() > 0;
+        for (const Expr *E : IL->inits()) {
+          const auto *SL = dyn_cast<clang::StringLiteral>(E->IgnoreParenImpCasts());
+          if (SL && SL->isAscii()) lits.push_back(jstr(SL->getString()));
+          else all = false;
+        }
+        if (all) g.raw("initStrings", jlist(lits));
+      }
+    }
     X.globals.push_back(g.done());
     return true;
   }
